@@ -3032,6 +3032,38 @@ impl QueryJob {
                                 // one let a later binding delete a tuple an earlier binding had
                                 // just inserted (-r(A,B), +r(B,A) <- r(A,B) lost tuples,
                                 // depending on the order of the query results).
+                                // Inserts made by an update obey the relation's schema like any
+                                // other insert: validate every tuple the update would insert
+                                // before touching anything, and reject the update as a whole.
+                                let mut schema_error = None;
+                                'validate: for bindings in &all_bindings {
+                                    for target in &op.inserts {
+                                        let tuple_vals: Option<Vec<Value>> = target
+                                            .args
+                                            .iter()
+                                            .map(|arg| match arg {
+                                                Term::Variable(v) => bindings.get(v).cloned(),
+                                                other => term_to_value(other).ok(),
+                                            })
+                                            .collect();
+                                        if let Some(vals) = tuple_vals {
+                                            if let Err(e) = storage.validate_tuples_in(
+                                                &kg_name,
+                                                &target.relation,
+                                                &[Tuple::new(vals)],
+                                            ) {
+                                                schema_error = Some((target.relation.clone(), e));
+                                                break 'validate;
+                                            }
+                                        }
+                                    }
+                                }
+                                if let Some((relation, e)) = schema_error {
+                                    messages.push(format!("Update rejected for '{relation}': {e}"));
+                                    current_stmt.clear();
+                                    continue;
+                                }
+
                                 for bindings in &all_bindings {
                                     for target in &op.deletes {
                                         let tuple_vals: Option<Vec<Value>> = target
